@@ -1957,7 +1957,8 @@ class CheckImplied(todict.PrintNode):
                     "{}:Too many arguments to 'size': ".format(
                         self.context.linenumber, self.expr)
                 )
-            argname = node.args[0].name
+            # The argument must be the name of another argument.
+            argname = getattr(node.args[0], "name", None)
             arg = declast.find_arg_by_name(self.decls, argname)
             if arg is None:
                 raise RuntimeError(
@@ -1972,7 +1973,8 @@ class CheckImplied(todict.PrintNode):
                     "{}:Too many arguments to '{}': {}".format(
                         self.context.linenumber, node.name, self.expr)
                 )
-            argname = node.args[0].name
+            # The argument must be the name of another argument.
+            argname = getattr(node.args[0], "name", None)
             arg = declast.find_arg_by_name(self.decls, argname)
             if arg is None:
                 raise RuntimeError(
